@@ -209,6 +209,14 @@ class CallsMixin:
             if i is None or not 1 <= i <= m.rx.ngroups:
                 raise OutOfSubset("match.group index")
             return grp(i)
+        if n == "dict.get" and isinstance(sv.shape, MapS):
+            ms = sv.shape
+            k = V.leaves(V.coerce(self.as_sym(args[0]), ms.key))[0]
+            dflt = V.coerce(args[1] if isinstance(args[1].shape, ConcS) else self.as_sym(args[1]), ms.val) if len(args) > 1 else None
+            if dflt is None:
+                raise OutOfSubset("dict.get without default")
+            stored = V.from_leaves(ms.val, [z3.Select(a, k) for a in sv.d[1]])
+            return V.ite(z3.Select(sv.d[0], k), stored, dflt)
         if n == "dict.items":
             return V.vconc(ItemsObj(sv))
         if n == "dict.keys":
@@ -639,11 +647,36 @@ class CallsMixin:
             for i in range(0, self.finite + 1):
                 tot = tot + z3.If(i < n, term(z3.IntVal(i)), 0)
             return tot
-        f = z3.Function(V.fresh_name("SUM"), z3.IntSort(), z3.IntSort())
-        j = z3.Int(V.fresh_name("sj"))
-        self.ctx.axioms.append(f(0) == 0)
-        self.ctx.axioms.append(z3.ForAll([j], z3.Implies(j >= 0, f(j + 1) == f(j) + term(j)), patterns=[f(j + 1)]))
-        self.ctx.sum_defs.append((f, term))
+        # one function symbol per summand (up to simplification), so that the same count
+        # written twice (in the code and in a contract) is the same term
+        K = z3.Int("SUMK")
+        key = ("sum", z3.simplify(term(K)).sexpr())
+        f = self.ctx.spec_cache.get(key)
+        if f is None:
+            f = z3.Function(V.fresh_name("SUM"), z3.IntSort(), z3.IntSort())
+            self.ctx.spec_cache[key] = f
+            j = z3.Int(V.fresh_name("sj"))
+            self.ctx.axioms.append(f(0) == 0)
+            self.ctx.axioms.append(z3.ForAll([j], z3.Implies(j >= 0, f(j + 1) == f(j) + term(j)), patterns=[f(j + 1)]))
+            chk = z3.Solver()
+            chk.set("timeout", 1000)
+            chk.add(term(K) < 0)
+            nonneg = chk.check() == z3.unsat
+            chk = z3.Solver()
+            chk.set("timeout", 1000)
+            chk.add(term(K) > 1)
+            le1 = chk.check() == z3.unsat
+            if nonneg:      # every summand is non-negative: so is every prefix sum
+                self.ctx.axioms.append(z3.ForAll([j], z3.Implies(j >= 0, f(j) >= 0), patterns=[f(j)]))
+            if le1:         # every summand is at most 1: a prefix sum is at most its length
+                self.ctx.axioms.append(z3.ForAll([j], z3.Implies(j >= 0, f(j) <= j), patterns=[f(j)]))
+            self.ctx.spec_cache[("sumb", f.get_id())] = (nonneg, le1)
+            self.ctx.sum_defs.append((f, term))
+        nonneg, le1 = self.ctx.spec_cache.get(("sumb", f.get_id()), (False, False))
+        if nonneg:
+            self.ctx.axioms.append(z3.Implies(n >= 0, f(n) >= 0))      # ground instances
+        if le1:
+            self.ctx.axioms.append(z3.Implies(n >= 0, f(n) <= n))
         return f(n)
 
     def b_max(self, args, kwargs, st):
@@ -991,6 +1024,10 @@ class CallsMixin:
             if c.result is not None:
                 st.assume(Q.deep_wf(self, res))
         env["result"] = res
+        if c.pure and c.result is not None and not isinstance(c.result, MapOf) and not c.ghost_results:
+            # the function is deterministic and reads only its arguments (fxvc obligation), so
+            # its result is a function of them: equal calls give equal results
+            st.pc.append(self.py_eq(res, self.pure_result(c, [env[p] for p in c.params if not hasattr(c.params[p], "get")])))
         if c.defines and not isinstance(c.result, MapOf):
             dv = self.spec_eval(c.defines, env, st, mod, c)
             st.assume(self.py_eq(res, V.coerce(self.as_sym(dv), c.result)))
@@ -1025,8 +1062,25 @@ class CallsMixin:
         self.last_ghost_results = {g: env[g] for g in c.ghost_results}
         return res
 
+    _pure_fns: dict = {}
+
+    def pure_result(self, c, argvals):
+        from contracts.specs import view_leaves
+        ls = [l for v in argvals for l in view_leaves(self.as_sym(v))]
+        sorts = c.result.sorts()
+        key = (c.name, tuple(str(l.sort()) for l in ls))
+        fns = self._pure_fns.get(key)
+        if fns is None:
+            tag = c.name.split(":")[1].replace(".", "_").replace("[", "_").replace("]", "")
+            fns = [z3.Function(f"F_{tag}_{i}_{len(self._pure_fns)}", *[l.sort() for l in ls], srt) for i, srt in enumerate(sorts)]
+            self._pure_fns[key] = fns
+        return V.from_leaves(c.result, [f(*ls) if ls else f() for f in fns])
+
     def narrow(self, v: Val, sh, st, c, p):
         """Pass a Union/Optional value where one alternative is expected: safety obligation."""
+        if isinstance(v.shape, OptS) and isinstance(v.shape.inner, UnionS) and not isinstance(sh, (OptS, UnionS)):
+            self.ctx.oblige(f"L{self.cur_line}/call:{c.name}/arg-{p}-not-None", st, z3.Not(v.d[0]), kind="safety")
+            return self.narrow(v.d[1], sh, st, c, p)
         if isinstance(v.shape, UnionS):
             for i, alt in enumerate(v.shape.alts):
                 if alt == sh:
